@@ -227,6 +227,9 @@ def run(ctx):
     ctx.ob('C09-R3', ld, f'group = {norm(grp[0].value) if grp else "?"}', ok,
            'group of the located file' if ok else 'reads from a group of a different file',
            line=(grp[0].lineno if grp else ld.node.lineno))
+    # R5 flight-identifier lookup across parts: the merged index offsets (shared with C08-R3)
+    from .c08 import rule_offsets
+    rule_offsets(ctx, m, rule='C09-R5')
     ctx.assumptions += ['netCDF4 resolves a negative record index against the (static) dimension length of a read-only file']
 
 
